@@ -345,6 +345,11 @@ func (s *Solver) check() Result {
 		case line == "unsat":
 			return Unsat
 		case line == "unknown" || line == "timeout":
+			// after a timeout the incremental state of the solver is not trusted
+			// (z3 can report "push canceled" and lose track of its scopes, which
+			// would turn later answers into garbage): start a fresh process and
+			// replay the mirrored assertion stack
+			s.restart()
 			return Unknown
 		case strings.HasPrefix(line, "(error"):
 			s.stats.mu.Lock()
@@ -352,8 +357,8 @@ func (s *Solver) check() Result {
 				s.stats.Errors = append(s.stats.Errors, s.be.Name+": "+line)
 			}
 			s.stats.mu.Unlock()
-			// an error poisons the answer: consume the verdict line and report unknown
-			s.readLine(s.timeout + 5*time.Second)
+			// an error poisons the answer and the process state
+			s.restart()
 			return Unknown
 		case line == "":
 			continue
